@@ -17,7 +17,7 @@ static uint64_t vn_state_hash(void) { uint64_t a[9] = { (uint64_t)vn_me, vn_byte
 /* wrap vx_choose to record the state at every choice point */
 static int child_run(const cfg_t *cf) {
 	ep_t *c = &XO->c, *s = &XO->s; memset(c, 0, sizeof *c); memset(s, 0, sizeof *s);
-	c->proto = s->proto = cf->proto; c->is_client = 1; c->mutual = s->mutual = cf->mutual; c->own = &CLI[cf->proto][cf->depth - 1]; s->own = &SRV[cf->proto][cf->depth - 1]; c->trust = &SRV[cf->proto][cf->depth - 1]; s->trust = cf->mutual ? &CLI[cf->proto][cf->depth - 1] : NULL;
+	c->proto = s->proto = cf->proto; c->is_client = 1; c->mutual = cf->mutual != 0 /* 2: the client HOLDS a certificate and key, but the server has no CA list and asks for none */; s->mutual = cf->mutual == 1; c->own = &CLI[cf->proto][cf->depth - 1]; s->own = &SRV[cf->proto][cf->depth - 1]; c->trust = &SRV[cf->proto][cf->depth - 1]; s->trust = cf->mutual == 1 ? &CLI[cf->proto][cf->depth - 1] : NULL;
 	c->out = cf->c2s; s->in = cf->c2s; s->out = cf->s2c; c->in = cf->s2c; c->do_app = s->do_app = cf->do_app; s->interleave = cf->interleave; if (cf->trust_extra) { /* trust lists with unrelated CA certificates around the genuine root: 1 = [U1, R], 2 = [R, U1], 3 = [U1, R, U2] */ static side_creds TS, TC; const side_creds *src[2] = { c->trust, s->trust }; side_creds *dst[2] = { &TS, &TC };
 		for (int w = 0; w < 2; w++) { if (!src[w]) continue; *dst[w] = *src[w]; uint8_t u1[1024], u2[1024]; size_t l1 = 0, l2 = 0; cert_spec u; spec_ca(&u, "U1", -1); make_cert(&u, &CK[9], &CK[9], "U1", u1, &l1); spec_ca(&u, "U2", -1); make_cert(&u, &CK[10], &CK[10], "U2", u2, &l2); uint8_t *p = dst[w]->cacerts; size_t rl = src[w]->cacertslen;
 			if (cf->trust_extra != 2) { memcpy(p, u1, l1); p += l1; } memcpy(p, src[w]->cacerts, rl); p += rl; if (cf->trust_extra == 2) { memcpy(p, u1, l1); p += l1; } if (cf->trust_extra == 3) { memcpy(p, u2, l2); p += l2; } dst[w]->cacertslen = (size_t)(p - dst[w]->cacerts); }
@@ -38,7 +38,7 @@ static int run_exec(const cfg_t *cf, const uint8_t *prefix, int np) {
 	if (!WIFEXITED(st) || WEXITSTATUS(st)) { snprintf(XO->fail, sizeof XO->fail, "%s", WIFSIGNALED(st) ? (WTERMSIG(st) == SIGALRM ? "hang" : "crash") : "abnormal-exit"); return -1; }
 	return 0;
 }
-static const char *cfgname(const cfg_t *cf) { static char b[96]; snprintf(b, sizeof b, "%s-%s-depth%d", PNAME[cf->proto], cf->mutual ? "mutual" : "serverauth", cf->depth); return b; }
+static const char *cfgname(const cfg_t *cf) { static char b[96]; snprintf(b, sizeof b, "%s-%s-depth%d", PNAME[cf->proto], cf->mutual == 2 ? "serverauth-client-holds-an-unrequested-certificate" : cf->mutual ? "mutual" : "serverauth", cf->depth); return b; }
 static uint64_t NEXEC, NSTATES_SEEN, NTRANS; static uint64_t *SEEN; static size_t SEENCAP;
 static int seen_add(uint64_t h) { if (!SEEN) { SEENCAP = 1 << 23; SEEN = calloc(SEENCAP, 8); } if (NSTATES_SEEN > SEENCAP / 2) return 0; /* table half full: the state count reported is a lower bound from here on */ if (!h) h = 1; size_t j = h & (SEENCAP - 1); while (SEEN[j]) { if (SEEN[j] == h) return 0; j = (j + 1) & (SEENCAP - 1); } SEEN[j] = h; NSTATES_SEEN++; return 1; }
 static void judge(const cfg_t *cf, const uint8_t *prefix, int np, const char *blk) {
@@ -83,6 +83,10 @@ static void body(void) {
 	   tls_ctx_init / tls_ctx_set_cipher_suites / tls_ctx_set_ca_certificates / tls_ctx_set_certificate_and_key / tls_ctx_set_tlcp_server_certificate_and_keys */
 	for (int p = 0; p < 3; p++) { char bn[64]; snprintf(bn, sizeof bn, "context-interface-%s", PNAME[p]); if (!vh_block_begin(bn)) continue;
 		for (int m = 0; m < 2; m++) for (int d = 1; d <= 3; d++) { cfg_t cf = { p, m, d, { { 24 }, 1, 64 }, { { 24 }, 1, 64 }, 1, 0, 0, 1 }; if (!vh_next()) continue; ENVX = 0; run_exec(&cf, NULL, 0); NEXEC++; judge(&cf, NULL, 0, "context-interface"); vh_sample("{\"block\":\"context-interface\",\"proto\":\"%s\",\"mutual\":%d,\"chain_depth\":%d}", PNAME[p], m, d); } }
+	/* G: the client is configured with a certificate and key although the server asks for none (no CA list on the server): plain server authentication must complete,
+	   filled context and context interface from files */
+	for (int p = 0; p < 3; p++) { char bn[64]; snprintf(bn, sizeof bn, "unrequested-client-certificate-%s", PNAME[p]); if (!vh_block_begin(bn)) continue;
+		for (int vf = 0; vf < 2; vf++) for (int d = 1; d <= 2; d++) { cfg_t cf = { p, 2, d, { { 24 }, 1, 64 }, { { 24 }, 1, 64 }, 1, 0, 0, vf }; if (!vh_next()) continue; ENVX = 0; run_exec(&cf, NULL, 0); NEXEC++; judge(&cf, NULL, 0, "unrequested-client-certificate"); vh_sample("{\"block\":\"unrequested-client-certificate\",\"proto\":\"%s\",\"via_files\":%d,\"chain_depth\":%d}", PNAME[p], vf, d); } }
 	/* F: trust lists with more than one CA certificate (the genuine root in front, in the middle, at the end): both verifiers must find it, and what the server
 	   tells the client about its acceptable authorities must be something the client can read */
 	for (int p = 0; p < 3; p++) { char bn[64]; snprintf(bn, sizeof bn, "trust-lists-%s", PNAME[p]); if (!vh_block_begin(bn)) continue;
